@@ -8,6 +8,8 @@ the clock advances, and the director picks who runs next.
 import _thread
 import threading
 
+_RealThread = threading.Thread  # threading.Thread itself is replaced by a managed stand-in during runs
+
 RUNNABLE, BLOCKED, DONE = "R", "B", "D"
 
 
@@ -91,7 +93,7 @@ class Sched:
         a = Actor(name, self._spawn_count)
         a.dead = self.crashed
         self.actors.append(a)
-        t = threading.Thread(target=self._thread_main, args=(a, fn), name="sim-" + name, daemon=True)
+        t = _RealThread(target=self._thread_main, args=(a, fn), name="sim-" + name, daemon=True)
         t.start()
         live = sum(1 for x in self.actors if x.state != DONE)
         if live > self.max_live:
@@ -122,6 +124,11 @@ class Sched:
         a = self.current
         if a is None:
             return None
+        if a.thread_id is not None and a.thread_id != _thread.get_ident():
+            # a thread the scheduler does not manage reached the simulated world: its interleaving would be
+            # decided by the host, so the run is not a simulation any more (harness outcome, never a verdict)
+            self.abort_reason = self.abort_reason or "an unmanaged thread called into the simulated world"
+            raise HarnessAbort(self.abort_reason)
         if a.dead or self.crashed:
             # the process is dead until the world starts the next incarnation (new_epoch): whatever the
             # unwinding code under test still tries to do (finally blocks, close() flushing) has no effect
